@@ -668,6 +668,8 @@ def _pow_semantic(crate, powb):
                     odd = (t[1] == "Ne") == bool(f[2])
         return odd
 
+    if not any(any(e.kind == "loop" for e in st.event_list()) for st in I.final_states):
+        return False   # the loop is never left: pow does not return for exponents that enter it
     for st in I.final_states:
         r = util.ret_term(st)
         if not any(e.kind == "loop" for e in st.event_list()):
